@@ -6,19 +6,378 @@ the pipeline treats as a broken tie (DESIGN.md section 2, step 1).
 """
 import ast
 import os
-import re
 
 
 class TranslateError(Exception):
     pass
 
 
+# ---------------------------------------------------------------------------
+# Normalisation of edits that cannot change any behaviour a property talks about (design.d/translator_robustness.md).
+# Applied to every katdal file inside `_parse` and - through `parse_template` / `normalise_tree` - to the templates the
+# items compare against, so that both sides are in the same normal form.  VERIF_TRANSLATE_RAW=1 switches it off.
+
+MESSAGE = '<message>'
+LOG_METHODS = ('debug', 'info', 'warning', 'warn', 'error', 'exception', 'critical', 'log')
+# builtins that only run the same protocol methods (__len__, __iter__, __str__, __repr__, __lt__, ...) on their
+# arguments that `%` / f-string formatting, comparison and subscription run anyway
+_PURE_BUILTINS = frozenset(('len', 'str', 'repr', 'int', 'float', 'bool', 'list', 'tuple', 'set', 'frozenset', 'dict',
+                            'sorted', 'min', 'max', 'sum', 'abs', 'round', 'type', 'range', 'enumerate', 'zip',
+                            'reversed', 'hex', 'id', 'isinstance'))
+_PURE_METHODS = frozenset(('keys', 'values', 'items'))      # on a benign receiver, without arguments
+_BENIGN_OPS = (ast.Mod, ast.Add, ast.Sub, ast.Mult, ast.Div, ast.FloorDiv)
+
+
+def _benign_expr(n, impure=None, pure=_PURE_BUILTINS):
+    """True if evaluating `n` can do nothing but read names / attributes / items, format, compare and do arithmetic
+    on them.  Calls outside the white list make it impure; with `impure` (a list) they are collected instead (the
+    caller keeps them pinned) - anything else that is not in the grammar (walrus, lambda, await, yield, starred,
+    comprehensions with conditions on calls ...) always gives False."""
+    def rec(x):
+        return _benign_expr(x, impure, pure)
+    if n is None or isinstance(n, (ast.Constant, ast.Name)):
+        return True
+    if isinstance(n, ast.Attribute):
+        return rec(n.value)
+    if isinstance(n, ast.Subscript):
+        return rec(n.value) and rec(n.slice)
+    if isinstance(n, ast.Slice):
+        return rec(n.lower) and rec(n.upper) and rec(n.step)
+    if isinstance(n, (ast.Tuple, ast.List, ast.Set)):
+        return all(rec(e) for e in n.elts)
+    if isinstance(n, ast.Dict):
+        return all(k is not None and rec(k) for k in n.keys) and all(rec(v) for v in n.values)
+    if isinstance(n, ast.JoinedStr):
+        return all(rec(v) for v in n.values)
+    if isinstance(n, ast.FormattedValue):
+        return rec(n.value) and rec(n.format_spec)
+    if isinstance(n, ast.BinOp):
+        return isinstance(n.op, _BENIGN_OPS) and rec(n.left) and rec(n.right)
+    if isinstance(n, ast.UnaryOp):
+        return isinstance(n.op, (ast.Not, ast.USub, ast.UAdd)) and rec(n.operand)
+    if isinstance(n, ast.BoolOp):
+        return all(rec(v) for v in n.values)
+    if isinstance(n, ast.Compare):
+        return rec(n.left) and all(rec(c) for c in n.comparators)
+    if isinstance(n, ast.IfExp):
+        return rec(n.test) and rec(n.body) and rec(n.orelse)
+    if isinstance(n, (ast.GeneratorExp, ast.ListComp, ast.SetComp)):
+        return rec(n.elt) and all(_benign_comp(g, impure, pure) for g in n.generators)
+    if isinstance(n, ast.Call):
+        ok = False
+        if not any(isinstance(a, ast.Starred) for a in n.args) and all(k.arg is not None for k in n.keywords):
+            if isinstance(n.func, ast.Name) and n.func.id in pure and not n.keywords:
+                ok = True
+            elif isinstance(n.func, ast.Attribute):
+                if n.func.attr in _PURE_METHODS and not n.args and not n.keywords and _benign_expr(n.func.value, None, pure):
+                    ok = True
+                elif n.func.attr == 'join' and isinstance(n.func.value, ast.Constant) \
+                        and isinstance(n.func.value.value, str) and len(n.args) == 1 and not n.keywords:
+                    ok = True
+                elif n.func.attr == 'format' and _is_message(n.func.value):
+                    ok = rec(n.func.value)
+        if ok and all(_benign_expr(a, None, pure) for a in n.args) and all(_benign_expr(k.value, None, pure) for k in n.keywords):
+            return True
+        if impure is not None:
+            impure.append(n)        # kept whole (and therefore pinned) by the caller
+            return True
+        return False
+    return False
+
+
+def _benign_comp(g, impure, pure):
+    def names_only(t):
+        return isinstance(t, ast.Name) or (isinstance(t, (ast.Tuple, ast.List)) and all(names_only(e) for e in t.elts))
+    return (not g.is_async and names_only(g.target) and _benign_expr(g.iter, impure, pure)
+            and all(_benign_expr(c, impure, pure) for c in g.ifs))
+
+
+def _is_message(n):
+    """Plainly a message: a string literal, an f-string, `<message> % operands`, `<message> + x` / `x + <message>`,
+    `<message>.format(...)`."""
+    if isinstance(n, ast.JoinedStr) or (isinstance(n, ast.Constant) and isinstance(n.value, str)):
+        return True
+    if isinstance(n, ast.BinOp) and isinstance(n.op, ast.Mod):
+        return _is_message(n.left)
+    if isinstance(n, ast.BinOp) and isinstance(n.op, ast.Add):
+        return _is_message(n.left) or _is_message(n.right)
+    if isinstance(n, ast.Call) and isinstance(n.func, ast.Attribute) and n.func.attr == 'format':
+        return _is_message(n.func.value)
+    return False
+
+
+def _message_placeholder(n, pure=_PURE_BUILTINS):
+    """The normal form of a message expression, or None if `n` is not plainly a message / contains something whose
+    evaluation could matter.  Calls outside the white list that occur among the operands stay (in source order)."""
+    if not _is_message(n):
+        return None
+    impure = []
+    if not _benign_expr(n, impure, pure):
+        return None
+    if impure:
+        return ast.Tuple(elts=[ast.Constant(MESSAGE)] + impure, ctx=ast.Load())
+    return ast.Constant(MESSAGE)
+
+
+def _dotted(n):
+    return isinstance(n, ast.Name) or (isinstance(n, ast.Attribute) and _dotted(n.value))
+
+
+class _Bindings(ast.NodeVisitor):
+    """Every way a name can be (re)bound in a file, so that `logger` / `logging` / `warnings` are only trusted when
+    they are bound exactly once, at module level, in the expected way."""
+
+    def __init__(self):
+        self.bound = {}
+
+    def _b(self, name, how):
+        self.bound.setdefault(name, []).append(how)
+
+    def visit_Name(self, n):
+        if not isinstance(n.ctx, ast.Load):
+            self._b(n.id, n)
+
+    def visit_arg(self, n):
+        self._b(n.arg, n)
+
+    def visit_alias(self, n):
+        self._b((n.asname or n.name).split('.')[0], n)
+
+    def visit_FunctionDef(self, n):
+        self._b(n.name, n)
+        self.generic_visit(n)
+
+    visit_AsyncFunctionDef = visit_ClassDef = visit_FunctionDef
+
+    def visit_ExceptHandler(self, n):
+        if n.name:
+            self._b(n.name, n)
+        self.generic_visit(n)
+
+    def visit_Global(self, n):
+        for x in n.names:
+            self._b(x, n)
+
+    visit_Nonlocal = visit_Global
+
+    def generic_visit(self, n):
+        for f in ('name', 'rest'):          # match statement captures (MatchAs / MatchStar / MatchMapping)
+            if type(n).__name__.startswith('Match') and isinstance(getattr(n, f, None), str):
+                self._b(getattr(n, f), n)
+        super().generic_visit(n)
+
+
+def _trusted_names(tree):
+    """(names that are the logging module, names that are the module logger, names that are the warnings module,
+    white-listed builtins that the file does not rebind anywhere)."""
+    if not isinstance(tree, ast.Module):
+        return set(), set(), set(), frozenset()
+    b = _Bindings()
+    b.visit(tree)
+    top = {}
+    for st in tree.body:
+        if isinstance(st, ast.Import):
+            for a in st.names:
+                if a.name in ('logging', 'warnings'):
+                    top[a.asname or a.name] = (a, a.name)
+        elif (isinstance(st, ast.Assign) and len(st.targets) == 1 and isinstance(st.targets[0], ast.Name)
+              and isinstance(st.value, ast.Call) and isinstance(st.value.func, ast.Attribute)
+              and st.value.func.attr == 'getLogger' and isinstance(st.value.func.value, ast.Name)):
+            top[st.targets[0].id] = (st.targets[0], 'logger:' + st.value.func.value.id)
+    once = {k: v for k, v in top.items() if len(b.bound.get(k, [])) == 1 and b.bound[k][0] is v[0]}
+    logging_names = set(k for k, v in once.items() if v[1] == 'logging')
+    loggers = set(k for k, v in once.items() if v[1].startswith('logger:') and v[1][7:] in logging_names)
+    warns = set(k for k, v in once.items() if v[1] == 'warnings')
+    return logging_names, loggers, warns, frozenset(x for x in _PURE_BUILTINS if x not in b.bound)
+
+
+class _Benign(ast.NodeTransformer):
+    """(a) docstrings, other constant expression statements and `pass` are dropped; (b) `logger.<level>(...)` statements
+    whose arguments are benign are dropped (otherwise only their message text is replaced), an `if` that is left with
+    nothing but a benign test is dropped, `except X as e` loses an `e` nobody reads; (c) the message of
+    `raise Exc(<message>)`, `warnings.warn(<message>, ...)` and `assert c, <message>` is replaced by a placeholder / dropped.
+    Exception classes, raise points, guards, causes (`from e`), warning categories and every other statement stay."""
+
+    def __init__(self, logging_names, loggers, warns, pure):
+        self.logging_names, self.loggers, self.warns, self.pure = logging_names, loggers, warns, pure
+
+    # ---- statements lists
+    def _log_call(self, st):
+        if not (isinstance(st, ast.Expr) and isinstance(st.value, ast.Call)):
+            return None
+        c = st.value
+        if (isinstance(c.func, ast.Attribute) and c.func.attr in LOG_METHODS and isinstance(c.func.value, ast.Name)
+                and c.func.value.id in (self.loggers | self.logging_names)):
+            return c
+        return None
+
+    def _block(self, stmts, required):
+        out = []
+        for st in stmts:
+            r = self.visit(st)
+            for s in (r if isinstance(r, list) else [r]):
+                if s is None or isinstance(s, ast.Pass):
+                    continue
+                if isinstance(s, ast.Expr) and isinstance(s.value, ast.Constant):
+                    continue        # docstring, stray literal, `...`
+                out.append(s)
+        if not out and required:
+            out = [ast.Pass()]
+        return out
+
+    def generic_visit(self, node):
+        for field, value in ast.iter_fields(node):
+            if isinstance(value, list) and value and isinstance(value[0], ast.stmt):
+                setattr(node, field, self._block(value, field == 'body'))
+            elif isinstance(value, list):
+                new = []
+                for v in value:
+                    if isinstance(v, ast.AST):
+                        v = self.visit(v)
+                        if v is None:
+                            continue
+                        if isinstance(v, list):
+                            new.extend(v)
+                            continue
+                    new.append(v)
+                value[:] = new
+            elif isinstance(value, ast.AST):
+                setattr(node, field, self.visit(value))
+        return node
+
+    # ---- (b) logging
+    def visit_Expr(self, node):
+        self.generic_visit(node)
+        c = self._log_call(node)
+        if c is not None:
+            if (not any(isinstance(a, ast.Starred) for a in c.args) and all(k.arg is not None for k in c.keywords)
+                    and all(_benign_expr(a, None, self.pure) for a in c.args)
+                    and all(_benign_expr(k.value, None, self.pure) for k in c.keywords)):
+                return None
+            i = 1 if c.func.attr == 'log' else 0       # not droppable: only the wording is ignored
+            if len(c.args) > i and not any(isinstance(a, ast.Starred) for a in c.args[:i + 1]):
+                ph = _message_placeholder(c.args[i], self.pure)      # keeps the calls made among its operands
+                if ph is not None:
+                    c.args[i] = ph
+            return node
+        v = node.value
+        if (isinstance(v, ast.Call) and isinstance(v.func, ast.Attribute) and v.func.attr == 'warn'
+                and isinstance(v.func.value, ast.Name) and v.func.value.id in self.warns and v.args):
+            ph = _message_placeholder(v.args[0], self.pure)
+            if ph is not None:
+                v.args[0] = ph
+        return node
+
+    def visit_If(self, node):
+        self.generic_visit(node)
+        if all(isinstance(s, ast.Pass) for s in node.body) and not node.orelse and _benign_expr(node.test, None, self.pure):
+            return None
+        return node
+
+    def visit_Try(self, node):
+        self.generic_visit(node)
+        if not node.handlers and not node.finalbody:       # the finally block held nothing but logging
+            return node.body + node.orelse
+        return node
+
+    visit_TryStar = visit_Try
+
+    # ---- (c) messages
+    def visit_Raise(self, node):
+        self.generic_visit(node)
+        e = node.exc
+        if isinstance(e, ast.Call) and _dotted(e.func) and len(e.args) == 1 and not e.keywords:
+            ph = _message_placeholder(e.args[0], self.pure)
+            if ph is not None:
+                e.args = [ph]
+        return node
+
+    def visit_Assert(self, node):
+        self.generic_visit(node)
+        if node.msg is not None and _benign_expr(node.msg, None, self.pure):
+            node.msg = None
+        return node
+
+
+def _drop_unread_handler_names(tree):
+    """`except X as e:` -> `except X:` when no code of the enclosing top-level function / class (for module-level code:
+    of the whole file) reads or writes a variable `e` outside handlers that bind it themselves, and this handler does not
+    use it either.  (`as e` unbinds `e` when the handler ends, so another variable `e` in scope keeps the name pinned.)"""
+    def region(scope, handlers):
+        handlers = [h for h in handlers if h.name]
+        if not handlers:
+            return
+        inside = {}
+        for h in ast.walk(scope):
+            if isinstance(h, ast.ExceptHandler) and h.name:
+                for n in ast.walk(h):
+                    if isinstance(n, ast.Name) and n.id == h.name:
+                        inside.setdefault(h.name, set()).add(id(n))
+        outside = set()
+        for n in ast.walk(scope):
+            if isinstance(n, ast.Name) and id(n) not in inside.get(n.id, ()):
+                outside.add(n.id)
+            elif isinstance(n, (ast.Global, ast.Nonlocal)):
+                outside.update(n.names)
+            elif isinstance(n, ast.arg):
+                outside.add(n.arg)
+            elif isinstance(n, ast.alias):
+                outside.add((n.asname or n.name).split('.')[0])
+            elif isinstance(n, (ast.FunctionDef, ast.AsyncFunctionDef, ast.ClassDef)):
+                outside.add(n.name)
+        for h in handlers:
+            if h.name not in outside and not any(isinstance(n, ast.Name) and n.id == h.name for n in ast.walk(h)):
+                h.name = None
+
+    def handlers_of(node):
+        return [h for h in ast.walk(node) if isinstance(h, ast.ExceptHandler)]
+    defs = (ast.FunctionDef, ast.AsyncFunctionDef, ast.ClassDef)
+    if isinstance(tree, ast.Module):
+        for st in tree.body:
+            if isinstance(st, defs):
+                region(st, handlers_of(st))
+        region(tree, [h for st in tree.body if not isinstance(st, defs) for h in handlers_of(st)])
+    else:
+        region(tree, handlers_of(tree))
+
+
+NORMALISE = os.environ.get('VERIF_TRANSLATE_RAW') != '1'
+
+
+def normalise_tree(tree, trusted=False):
+    """Normal form of a parsed katdal file (trusted=False: `logger` / `warnings` must be bound once, at module level, by
+    `logger = logging.getLogger(...)` / `import warnings`) or of a template fragment written by us (trusted=True: the
+    names `logger`, `logging`, `warnings` mean what they say).  Works in place and returns the tree."""
+    if not NORMALISE:
+        return tree
+    if trusted:
+        names = ({'logging'}, {'logger'}, {'warnings'}, _PURE_BUILTINS)
+    else:
+        names = _trusted_names(tree)
+    tree = _Benign(*names).visit(tree)
+    if isinstance(tree, list):
+        tree = ast.Module(body=tree, type_ignores=[])
+    _drop_unread_handler_names(tree)
+    return ast.fix_missing_locations(tree)
+
+
+def parse_template(text, mode='exec'):
+    """ast.parse of a template (source text written in an item), in the same normal form as the katdal files."""
+    return normalise_tree(ast.parse(text, mode=mode), trusted=True)
+
+
+def normalise_source(text, mode='exec'):
+    """The normal form of a piece of source text, unparsed again (for items that compare `ast.unparse` text)."""
+    return ast.unparse(parse_template(text, mode))
+
+
 def _parse(repo, rel):
     p = os.path.join(repo, rel)
     try:
-        return ast.parse(open(p).read(), p)
+        tree = ast.parse(open(p).read(), p)
     except (OSError, SyntaxError) as e:
         raise TranslateError('%s: %s' % (rel, e))
+    return normalise_tree(tree)
 
 
 def _module_assign(tree, name, rel):
@@ -125,21 +484,21 @@ def generate(repo, failures=None):
     out = ['(* GENERATED by harness/vh/translate.py from the working tree of /repo -- do not edit. *)',
            'From Coq Require Import ZArith List String.', 'Import ListNotations.', 'Open Scope Z_scope.', '']
     from vh import translate_items
-    seen_defs = {}
+    import re
+    emitted = {}
     for it in ITEMS + translate_items.ITEMS:
         part = []
         try:
             it(repo, part)
-            # two items (of different properties) may regenerate the same fact under the same name: a Definition that
-            # is textually identical to one already emitted is left out (a differing one is left for coqc to refuse)
-            for line in part:
-                m = re.match(r'Definition\s+([\w\']+)', line)
-                if m and seen_defs.get(m.group(1)) == line:
-                    out.append('(* %s: same definition already emitted above *)' % m.group(1))
-                    continue
-                if m:
-                    seen_defs.setdefault(m.group(1), line)
-                out.append(line)
+            for i, line in enumerate(part):
+                # two items (of two properties) may pin the same constant under the same name: the second, IDENTICAL,
+                # definition is left out (Coq rejects a redefinition); a different text is kept and fails in coqc
+                m = re.match(r'Definition\s+([\w\']+)', line) if isinstance(line, str) else None
+                if m and emitted.get(m.group(1), (None, None))[0] == line:
+                    part[i] = '(* %s: the same definition was already emitted by %s *)' % (m.group(1), emitted[m.group(1)][1])
+                elif m:
+                    emitted.setdefault(m.group(1), (line, it.__name__))
+            out += part
         except TranslateError as e:
             if failures is None:
                 raise
